@@ -39,3 +39,56 @@ def check_C07(sc, v, tier, seed, replay):
             return "%s:alg%d:len%%4=%d" % (e["ev"], e["alg"], len(e["in"]) % 4)
         return str(e.get("ev"))
     _reject_to_violation(v, rejects, key)
+
+
+def _stateless(sc, v, rec, module, trace_name, seed, tier, extra_args=(), timeout=1200):
+    sc.build([rec])
+    trace = os.path.join(sc.work, trace_name)
+    sc.run(rec, ["-seed", seed, "-tier", tier, "-out", trace] + list(extra_args))
+    results, rejects, lines = vlib.validate_trace(sc, module, trace, timeout=timeout)
+    v.add_tlc(results)
+    v.traces += len(results)
+    evs = [json.loads(l) for l in lines]
+    v.evaluations += len(evs)
+    return evs, rejects
+
+
+# ------------------------------------------------------------------------------------------------
+# C15  Milenage library and AUTN acceptance
+# ------------------------------------------------------------------------------------------------
+def check_C15(sc, v, tier, seed, replay):
+    evs, rejects = _stateless(sc, v, "rec-milenage", "TraceMilenage", "milenage.ndjson", seed, tier)
+    for e in evs:
+        d = dict(e)
+        d.pop("id", None)
+        v.distinct.add(canon(d))
+    v.samples = [e for e in evs if e["ev"] == "Check"][:2] + [e for e in evs if e["ev"] == "F"][:1]
+    v.rule = ("base vectors (TS 35.207 set 1 inputs + seeded random/corner K, OP, RAND, AMF, SQN) x UE SQN {equal, +-1, differing only "
+              "in octet i (i=0..5), random, zero} x every single-bit and single-octet corruption of AUTN (fresh and stale UE SQN) "
+              "and of AUTS; distinct = distinct event, all non-trivial")
+    v.assumptions = ["TLA+ transcription of TS 35.206 (SelfTest: TS 35.207 test set 1)",
+                     "a check with wrong MAC-A and stale SQN may answer -1 or -2 (the property does not fix the order of the two tests)"]
+
+    def key(r, e):
+        return "%s:%s:ret=%s" % (e.get("ev"), e.get("cls", ""), e.get("ret", ""))
+    _reject_to_violation(v, rejects, key)
+
+
+# ------------------------------------------------------------------------------------------------
+# C05  5G-AKA key hierarchy
+# ------------------------------------------------------------------------------------------------
+def check_C05(sc, v, tier, seed, replay):
+    evs, rejects = _stateless(sc, v, "rec-aka", "TraceAka", "aka.ndjson", seed, tier)
+    for e in evs:
+        v.distinct.add(canon([e[k] for k in ("k", "op", "opc", "rand", "autn", "mcc", "mnc", "supi", "enc", "int")]))
+    v.samples = evs[:2]
+    v.extra["classes_covered"] = len(set((len(e["mnc"]), len(e["supi"]), e["enc"], e["int"], len(e["opc"]) == 0) for e in evs))
+    v.rule = ("structural grid MNC length 2|3 x SUPI length 5..15 x ciphering id 0..3 x integrity id 0..3 x {OP only, OPc} (704 classes; "
+              "quick: 64 classes covering every value of every factor, thorough: all) with seeded random / all-zero / all-one K, OP, RAND, "
+              "SQN xor AK; distinct = distinct input tuple, all non-trivial")
+    v.assumptions = ["TLA+ transcriptions of Milenage, HMAC-SHA-256, TS 33.220 KDF (SelfTest: TS 35.207 set 1, FIPS 180 'abc', RFC 4231 #1)",
+                     "serving network name as built by the caller (5G:mnc<3 digits>.mcc<mcc>.3gppnetwork.org)"]
+
+    def key(r, e):
+        return "Derive:%s:%s" % (e.get("cls", ""), r["why"].split(" differs")[0])
+    _reject_to_violation(v, rejects, key)
